@@ -125,6 +125,7 @@ class Ctx:
         self.samples: list = []
         self.dist: Counter = Counter()
         self.disagreements: list[dict] = []
+        self.class_diffs: list[dict] = []
         self.failures: list[dict] = []       # oracle failures not explained by a known finding
         self.known_hits: dict[str, dict] = {}  # known-finding id -> first witness seen this run
         self.corr_checked = 0
@@ -149,16 +150,30 @@ class Ctx:
         if sample is not None and len(self.samples) < 5:
             self.samples.append(sample)
 
+    def compare(self, suite: str, q: str, a: str, b: str, label=None) -> None:
+        """One correspondence line: implementation response `a` against model response `b`.
+
+        Outputs, the accept/reject decision and the point of rejection must agree exactly. WHICH ordinary exception class
+        a rejection uses is not part of any property: a difference in the class alone is recorded in the evidence
+        (`error_class_differences`) and does not break the tie. Fatal outcomes (anything that is not an ordinary
+        `Exception`, MemoryError, RecursionError, a hang) are never folded."""
+        self.corr_checked += 1
+        if a == b:
+            return
+        if canon_errors(a) == canon_errors(b):
+            self.dist[f"error_class_differs:{suite}"] += 1
+            if len(self.class_diffs) < 10:
+                self.class_diffs.append(dict(suite=suite, request=q[:600], impl=a[-200:], model=b[-200:]))
+            return
+        self.dist[f"disagree:{suite}"] += 1
+        if len(self.disagreements) < 20:
+            self.disagreements.append(dict(suite=suite, request=q[:4000], impl=a[:4000], model=b[:4000], label=label))
+
     def corr(self, suite: str, reqs: list[str], impl: list[str], labels: list | None = None) -> list[str]:
         """Correspondence: run the model on `reqs`, compare with the implementation's responses."""
         model = run_driver(reqs)
         for i, (q, a, b) in enumerate(zip(reqs, impl, model)):
-            self.corr_checked += 1
-            if a != b:
-                self.dist[f"disagree:{suite}"] += 1
-                if len(self.disagreements) < 20:
-                    self.disagreements.append(dict(suite=suite, request=q[:4000], impl=a[:4000], model=b[:4000],
-                                                   label=None if labels is None else labels[i]))
+            self.compare(suite, q, a, b, None if labels is None else labels[i])
         return model
 
     def fail(self, what: str, replay: dict, known: str | None = None):
@@ -170,6 +185,15 @@ class Ctx:
             self.dist["oracle_failure"] += 1
             if len(self.failures) < 10:
                 self.failures.append(dict(what=what, replay=replay))
+
+
+_FATAL = {"MemoryError", "RecursionError", "SystemExit", "KeyboardInterrupt", "GeneratorExit", "Timeout", "SystemError"}
+_ERR_TOKEN = re.compile(r"(?<!!)!([A-Za-z_][A-Za-z0-9_]*)")
+
+
+def canon_errors(line: str) -> str:
+    """Fold the class name of every ordinary exception token `!Name` to `!E` (fatal ones and `!!Name` are kept)."""
+    return _ERR_TOKEN.sub(lambda m: m.group(0) if m.group(1) in _FATAL else "!E", line)
 
 
 def run_corpus(ctx: Ctx) -> None:
@@ -191,12 +215,8 @@ def run_corpus(ctx: Ctx) -> None:
             real.append(a)
     model = [m.replace("~", "") for m in run_driver(kept)]
     for q, a, m in zip(kept, real, model):
-        ctx.corr_checked += 1
         ctx.dist["corpus_requests"] += 1
-        if a != m:
-            ctx.dist["disagree:CORPUS"] += 1
-            if len(ctx.disagreements) < 20:
-                ctx.disagreements.append(dict(suite="CORPUS", request=q[:4000], impl=a[:4000], model=m[:4000]))
+        ctx.compare("CORPUS", q, a, m)
 
 
 def load_known(pid: str) -> list[dict]:
@@ -257,7 +277,7 @@ def finish(ctx: Ctx, b: BuildResult, spec: dict) -> int:
             evaluations=ctx.evaluations, distinct_nontrivial=len(ctx.keys),
             rule=spec.get("rule", ""), samples=ctx.samples[:5] or [spec.get("rule", "n/a")],
             correspondence_lines_compared=ctx.corr_checked, disagreements=len(ctx.disagreements),
-            distribution=dict(ctx.dist), exhaustive=ctx.exhaustive, leanchecker_recheck=b.leanchecker, known_findings_observed=sorted(ctx.known_hits),
+            distribution=dict(ctx.dist), error_class_differences=ctx.class_diffs, exhaustive=ctx.exhaustive, leanchecker_recheck=b.leanchecker, known_findings_observed=sorted(ctx.known_hits),
             **ctx.extra),
         assumptions=spec.get("assumptions", []) + ctx.notes,
         wall_s=round(time.time() - ctx.t0, 2), violations=violations)
